@@ -203,6 +203,8 @@ def run(ctx, report):
         me.m = m_
         me.arg = [{afs.ad: False, afs.size: afs.u32, 1: 1}, {afs.ad: False, afs.size: afs.u32, 2: 1}]
         scope = dict((k, v) for k, v in E.items() if isinstance(v, (str, int, bool, list, tuple, dict)) or v is None)
+        for fname_, fnode_ in arch.funcs.items():
+            scope.setdefault(fname_, fnode_)           # module-level helpers the branch may call
         scope.update({'self': me, 'args': ['A', 'B'], 'mnemo': [name], 'asm_format': 'att_syntax', 'x86_afs': afs,
                       'mnemo_to_att': Native(lambda n_, a_, f_: n_)})
         ev = Evaluator({})
